@@ -46,7 +46,7 @@ func (e *Engine) VerifyUnit(c *Contract) (r *FnRun) {
 		}
 	}()
 	r.Sc.Comment("unit " + fn.String())
-	r.inInit = fn.Name() == "init" && fn.Parent() == nil
+	r.inInit = fn.Name() == "init" && fn.Parent() == nil && fn.Signature.Recv() == nil
 	st := &State{regs: map[*ssa.Alloc]Term{}, heap: map[string]Term{}, ghost: map[string]Term{}, held: map[string]bool{}, vol: map[string]bool{}}
 	st.top = r.Sc.Declare("top0", SInt)
 	r.Sc.Assume(Le(IntLit(0), st.top))
@@ -95,7 +95,7 @@ func (e *Engine) VerifyUnit(c *Contract) (r *FnRun) {
 	ctx := fr.ctxHere()
 	// package invariants over package-level variables
 	if fn.Pkg != nil {
-		isInit := fn.Name() == "init"
+		isInit := fn.Name() == "init" && fn.Signature.Recv() == nil
 		if !isInit {
 			for _, gi := range e.DB.GlobalInvs[pkgOf(fn).Path()] {
 				fr.assume(ctx.Bool(gi.E))
@@ -552,6 +552,12 @@ func (r *FnRun) modTargets(fr *Frame, ctx *EvalCtx, e Expr, add func(comp string
 			}
 		case "chanState":
 			add(chanClosedComp, Term{}, true)
+		case "allElems":
+			ty, err := r.Eng.ResolveType(typeExprString(e.Args[0]), ctx.pkgPath)
+			if err != nil {
+				ctx.fail("%v", err)
+			}
+			add(elemsComp(ty), Term{}, true)
 		case "all":
 			x := ctx.Eval(e.Args[0])
 			p := types.Unalias(x.Ty).Underlying().(*types.Pointer)
